@@ -15,6 +15,7 @@ import mirq
 from mirq import show, access_path, AnchorMissing, const_of, walk
 from rulekit import Table
 from rules import common as C
+from rules import vocab as V
 
 TABLE = Table('C01')
 NOT_DECIDED = ('that the copied bytes land inside the buffer (value-level; an out-of-range slice '
@@ -571,7 +572,7 @@ def r9(cx, rec):
         for bi, si, e in mirq.agg_sites(f, '^' + re.escape(adt) + '$'):
             fields = dict(e[4])
             rec.site(f, bi, 'assembly state built: hash<-%s index<-%s' % (access_path(fields[hsh]), access_path(fields[idx])))
-            rec.need((access_path(fields[hsh]) or '').endswith('piece_hash'), 'piecerx-hash', f, bi, 'expected hash is not taken from the request data')
+            rec.need((access_path(fields[hsh]) or '').split('.')[-1] == V.reqdata_hash(F), 'piecerx-hash', f, bi, 'expected hash is not taken from the request data')
             rec.need((access_path(fields[idx]) or '').endswith('piece_index'), 'piecerx-index', f, bi, 'assigned index is not taken from the request data')
             bl = [y for y in walk(fields[buff]) if y[0] in ('var', 'field') and (access_path(y) or '').endswith('piece_length')]
             rec.need(bool(bl), 'piecerx-buffer-size', f, bi, 'assembly buffer is not sized by the request\'s piece length')
@@ -597,6 +598,13 @@ def r10(cx, rec):
 def r11(cx, rec):
     from rules import C09
     C09.r5(cx, rec)
+
+
+@TABLE.rule('13', 'K1', 'a new assignment starts from an empty assembly buffer (shared with C10): the previous piece\'s blocks never '
+            'remain in the buffer that is verified and stored for the new piece', floor=1)
+def r13(cx, rec):
+    from rules import C10
+    C10.fresh_assignment(cx, rec)
 
 
 @TABLE.rule('12', 'K8', 'the manager\'s record of what a peer is fetching (Peer.piece_index) changes to Some(i) only together with a request for i, '
